@@ -806,7 +806,12 @@ func runReplay(p *Prog, verif, adapter string, model map[string]string, scratch 
 	ob, _ := json.Marshal(ov)
 	of := filepath.Join(scratch, "overlay_"+adapter+".json")
 	os.WriteFile(of, ob, 0644)
-	cmd := exec.Command("go", "test", "-overlay", of, "-vet=off", "-count=1", "-timeout", "300s", "-v", "-run", "^TestVerifReplay$", "./"+dir)
+	goArgs := []string{"test", "-overlay", of, "-vet=off", "-count=1", "-timeout", "300s", "-v"}
+	if m := regexp.MustCompile(`(?m)^// flags: (.*)$`).FindStringSubmatch(tmpl); m != nil {
+		goArgs = append(goArgs, strings.Fields(m[1])...)
+	}
+	goArgs = append(goArgs, "-run", "^TestVerifReplay$", "./"+dir)
+	cmd := exec.Command("go", goArgs...)
 	cmd.Dir = p.repo
 	cmd.Env = append(os.Environ(), "GOFLAGS=-mod=mod", "GOPROXY=off", "GOSUMDB=off", "GOTOOLCHAIN=local")
 	b, _ := cmd.CombinedOutput()
